@@ -130,6 +130,32 @@ M = {
  "y4": ("trust by chain building: the leaf verifies against the trusted certificates as roots", [(VF,
      "\t_, err := signature.VerifyAuthenticity(&outcome.EnvelopeContent.SignerInfo, trustCerts)\n",
      "\t_, err := signature.VerifyAuthenticity(&outcome.EnvelopeContent.SignerInfo, trustCerts)\n\tif ch := outcome.EnvelopeContent.SignerInfo.CertificateChain; err != nil && len(ch) > 0 {\n\t\troots, inter := x509.NewCertPool(), x509.NewCertPool()\n\t\tfor _, tc := range trustCerts {\n\t\t\troots.AddCert(tc)\n\t\t}\n\t\tfor _, ic := range ch[1:] {\n\t\t\tinter.AddCert(ic)\n\t\t}\n\t\tif _, verr := ch[0].Verify(x509.VerifyOptions{Roots: roots, Intermediates: inter, KeyUsages: []x509.ExtKeyUsage{x509.ExtKeyUsageAny}}); verr == nil {\n\t\t\terr = nil\n\t\t}\n\t}\n")]),
+ # --- round 7: enclosing / extending scopes; linked certificate files between stores
+ "e1": ("a scope also covers repositories nested below it, closest wins (seeded C03-18)", [(OCI,
+     "\t\t\tapplicablePolicy = (&policyStatement).clone()\n\t\t}\n",
+     "\t\t\tapplicablePolicy = (&policyStatement).clone()\n\t\t\tmatched = artifactPath\n\t\t}\n\t\tfor _, scope := range policyStatement.RegistryScopes {\n\t\t\tif strings.HasPrefix(artifactPath, scope+\"/\") && len(scope) > len(matched) {\n\t\t\t\tapplicablePolicy, matched = (&policyStatement).clone(), scope\n\t\t\t}\n\t\t}\n"),
+     (OCI, "\tvar applicablePolicy *OCITrustPolicy\n", "\tvar applicablePolicy *OCITrustPolicy\n\tvar matched string\n")]),
+ "e2": ("a scope matches every artifact path it is a string prefix of (when nothing matches exactly)", [(OCI,
+     "\tif applicablePolicy != nil {\n\t\t// a policy with exact match",
+     "\tif applicablePolicy == nil {\n\t\tfor _, st := range policyDoc.TrustPolicies {\n\t\t\tfor _, scope := range st.RegistryScopes {\n\t\t\t\tif scope != trustpolicy.Wildcard && strings.HasPrefix(artifactPath, scope) {\n\t\t\t\t\tapplicablePolicy = (&st).clone()\n\t\t\t\t}\n\t\t\t}\n\t\t}\n\t}\n\tif applicablePolicy != nil {\n\t\t// a policy with exact match")]),
+ "e3": ("a statement scoped BELOW the artifact path applies to it (when nothing matches exactly)", [(OCI,
+     "\tif applicablePolicy != nil {\n\t\t// a policy with exact match",
+     "\tif applicablePolicy == nil {\n\t\tfor _, st := range policyDoc.TrustPolicies {\n\t\t\tfor _, scope := range st.RegistryScopes {\n\t\t\t\tif strings.HasPrefix(scope, artifactPath+\"/\") {\n\t\t\t\t\tapplicablePolicy = (&st).clone()\n\t\t\t\t}\n\t\t\t}\n\t\t}\n\t}\n\tif applicablePolicy != nil {\n\t\t// a policy with exact match")]),
+ "l1": ("linked certificate file followed when its target has the store path as string prefix (seeded C03-16)", [
+     (TS, "\t\tif file.IsDir() || file.Type()&fs.ModeSymlink != 0 {",
+          "\t\tnotRegular := file.IsDir()\n\t\tif file.Type()&fs.ModeSymlink != 0 {\n\t\t\ttarget, err := filepath.EvalSymlinks(joinedPath)\n\t\t\tnotRegular = err != nil || !strings.HasPrefix(target, path)\n\t\t}\n\t\tif notRegular {"),
+     (TS, "import (\n", "import (\n\t\"strings\"\n")]),
+ "l2": ("linked certificate file followed when the link is relative", [
+     (TS, "\t\tif file.IsDir() || file.Type()&fs.ModeSymlink != 0 {",
+          "\t\tnotRegular := file.IsDir()\n\t\tif file.Type()&fs.ModeSymlink != 0 {\n\t\t\tto, err := os.Readlink(joinedPath)\n\t\t\tnotRegular = err != nil || filepath.IsAbs(to)\n\t\t}\n\t\tif notRegular {")]),
+ "l3": ("linked certificate file followed when its target lies anywhere below the trust store root", [
+     (TS, "\t\tif file.IsDir() || file.Type()&fs.ModeSymlink != 0 {",
+          "\t\tnotRegular := file.IsDir()\n\t\tif file.Type()&fs.ModeSymlink != 0 {\n\t\t\ttarget, err := filepath.EvalSymlinks(joinedPath)\n\t\t\tnotRegular = err != nil || !strings.HasPrefix(target, filepath.Dir(filepath.Dir(path))+string(filepath.Separator))\n\t\t}\n\t\tif notRegular {"),
+     (TS, "import (\n", "import (\n\t\"strings\"\n")]),
+ "l4": ("linked certificate file followed when it points into the same store (correct boundary) - still a link: refused by the unchanged code", [
+     (TS, "\t\tif file.IsDir() || file.Type()&fs.ModeSymlink != 0 {",
+          "\t\tnotRegular := file.IsDir()\n\t\tif file.Type()&fs.ModeSymlink != 0 {\n\t\t\ttarget, err := filepath.EvalSymlinks(joinedPath)\n\t\t\tnotRegular = err != nil || !strings.HasPrefix(target, path+string(filepath.Separator))\n\t\t}\n\t\tif notRegular {"),
+     (TS, "import (\n", "import (\n\t\"strings\"\n")]),
  # --- tie to the translated source: property-breaking edits inside each translated function
  #     (besides m1 m2 m3 m8 m9 m11 m12 m16 m21 above, which sit in the same functions)
  "t1": ("isTSATrustStoreInPolicy: comparison reversed", [(H, "if truststore.Type(storeType) == truststore.TypeTSA {", "if truststore.Type(storeType) != truststore.TypeTSA {")]),
